@@ -268,7 +268,13 @@ class NA:
             if len(key) == 2 and self.ndim == 2:
                 i, j = key
                 rows = self.data[i] if isinstance(i, slice) else [self.data[i]]
-                out = [r[j] for r in rows]
+                if isinstance(j, (list, NA)):
+                    cols = list(j.data) if isinstance(j, NA) else list(j)
+                    if not all(isinstance(c, int) and not isinstance(c, bool) for c in cols):
+                        raise Unsupported("column selection by something other than integer positions")
+                    out = [[r[c] for c in cols] for r in rows]
+                else:
+                    out = [r[j] for r in rows]
                 if isinstance(i, int):
                     out = out[0]
                     return NA(out) if isinstance(out, list) else out
@@ -346,7 +352,47 @@ def np_logical_and(a, b):
     return a & b
 
 
+class NScalar(float):
+    """A numpy floating scalar: a float with ``astype``."""
+
+    def astype(self, t, *a, **k):
+        return int(self) if t is int or t in ("int", "int64", "int32") else NScalar(self)
+
+
+def np_ceil(x):
+    import math
+
+    if isinstance(x, NA):
+        return x._map(lambda v: float(math.ceil(v)))
+    return NScalar(math.ceil(x))
+
+
+def np_floor(x):
+    import math
+
+    if isinstance(x, NA):
+        return x._map(lambda v: float(math.floor(v)))
+    return NScalar(math.floor(x))
+
+
+def np_vstack(parts):
+    rows = []
+    width = None
+    for part in parts:
+        part = part if isinstance(part, NA) else NA(part)
+        part = np_atleast_2d(part)
+        if width is not None and part.shape[1] != width and part.shape[0]:
+            raise ValueError("all the input array dimensions except for the concatenation axis must match exactly")
+        if part.shape[0]:
+            width = part.shape[1]
+        rows.extend([list(r) for r in part.data])
+    if not rows:
+        raise ValueError("need at least one array to concatenate")
+    return NA(rows)
+
+
 NUMPY = {
+    "numpy.ceil": np_ceil, "numpy.floor": np_floor, "numpy.vstack": np_vstack, "numpy.concatenate": np_vstack,
     "numpy.array": np_array, "numpy.asarray": np_array, "numpy.atleast_2d": np_atleast_2d, "numpy.abs": np_abs, "numpy.absolute": np_abs,
     "numpy.minimum": np_minimum, "numpy.maximum": np_maximum, "numpy.repeat": np_repeat, "numpy.char.add": np_char_add,
     "numpy.logical_and": np_logical_and, "numpy.dtype": lambda *a, **k: None, "numpy.full": lambda shape, v, **k: NA([v] * (shape if isinstance(shape, int) else shape[0])),
